@@ -66,6 +66,13 @@ def corruptions(rng, S, n_each=2):
         out.append(("degenerate-empty-strand", doc(base + [f"E1 = {d} +"])))
         out.append(("degenerate-leading-plus", doc(base + [f"E2 = + {d}"])))
         out.append(("degenerate-double-plus", doc(base + [f"E3 = {d} + + {d}"])))
+        # a domain declared again with another sequence (compatible, incompatible, foreign letters, lower case)
+        out.append(("redeclared-sequence-foreign", doc(base + ["sequence rs1 = ACGTAC", "sequence rs1 = ACGTAX"])))
+        out.append(("redeclared-sequence-lowercase", doc(base + ["sequence rs2 = ACGTAC", "sequence rs2 = acgtac : 6"])))
+        out.append(("redeclared-sequence-incompatible", doc(base + ["sequence rs3 = ACGTAC", "sequence rs3 = TTTTTT"])))
+        out.append(("redeclared-sequence-compatible", doc(base + ["sequence rs4 = ACGTAN", "sequence rs4 = ACGTAC"])))
+        out.append(("redeclared-sequence-after-length", doc(base + ["length rs5 = 4", "sequence rs5 = ACGX", "sequence rs5 = ACGT"])))
+        out.append(("redeclared-sequence-other-length", doc(base + ["sequence rs6 = ACGT", "sequence rs6 = ACGTA"])))
         out.append(("degenerate-only-plus", doc(base + ["E3b = +"])))
         out.append(("degenerate-only-pluses", doc(base + ["E3c = + +"])))
         out.append(("degenerate-paired-nothing", doc(base + [f"E3d = {d}( + )"])))
